@@ -9,6 +9,7 @@ Interpretation domain (stated as assumptions by the rules that use this module):
 interval (np.clip is the identity, the clip mask is 1), floored quantities strictly positive (np.maximum(x, 0) = x and
 (x == 0) masks are empty), i.e. a generic interior point where the score is differentiable.
 """
+from .astutil import clone as _clone
 import ast
 from fractions import Fraction as Fr
 
@@ -647,6 +648,11 @@ class TermInterp:
         if len(e.ops) != 1:
             raise Unsupported("chained comparison")
         a, b = self.ev(e.left), self.ev(e.comparators[0])
+        if not (isinstance(a, TArr) and a.ndim > 0) and isinstance(b, TArr) and b.ndim > 0 and type(e.ops[0]) in (ast.Lt, ast.LtE, ast.Gt, ast.GtE, ast.Eq, ast.NotEq):
+            # `eps < y` is `y > eps`: put the array on the left
+            flip = {ast.Lt: ast.Gt, ast.LtE: ast.GtE, ast.Gt: ast.Lt, ast.GtE: ast.LtE, ast.Eq: ast.Eq, ast.NotEq: ast.NotEq}
+            e = ast.copy_location(ast.Compare(left=e.comparators[0], ops=[flip[type(e.ops[0])]()], comparators=[e.left]), e)
+            a, b = b, a
         if isinstance(e.ops[0], (ast.Is, ast.IsNot)):
             r = (a is None) == (b is None) if (a is None or b is None) else _unsup("is on values")
             return r if isinstance(e.ops[0], ast.Is) else not r
@@ -970,7 +976,7 @@ def _unsup(msg):
 
 def _load(t):
     import copy
-    n = copy.deepcopy(t)
+    n = _clone(t)
     for x in ast.walk(n):
         if hasattr(x, "ctx"):
             x.ctx = ast.Load()
